@@ -159,6 +159,9 @@ def render(e, env, budget=3):
             return render(e["recv"], env, budget)
         if e["method"] in ("filter", "skip_while", "take_while", "inspect", "peekable", "by_ref") and all(a["k"] == "Closure" for a in e["args"]):
             return render(e["recv"], env, budget)
+        if e["method"] == "insert" and len(e["args"]) == 1:
+            # the truth value of `set.insert(x)`: x was not in the set (see cond_key)
+            return "!" + render(e["recv"], env, budget) + ".contains(" + render(e["args"][0], env, budget) + ")"
         if not e["args"] and _REPO[0] is not None and e["method"] in variant_predicates(_REPO[0]):
             return f"is<{variant_predicates(_REPO[0])[e['method']]}>({render(e['recv'], env, budget)})"
         args = ", ".join("<closure>" if a["k"] == "Closure" else render(a, env, budget) for a in e["args"])
@@ -294,6 +297,10 @@ def cond_key(repo, fn, envs, cond, env=None):
         return "(" + cond_key(repo, fn, envs, cond["left"], over) + f" {cond['op']} " + cond_key(repo, fn, envs, cond["right"], over) + ")"
     if cond["k"] == "Unary" and cond["op"] == "!":
         return "!" + cond_key(repo, fn, envs, cond["expr"], over)
+    if cond["k"] == "MethodCall" and cond["method"] == "insert" and len(cond["args"]) == 1:
+        # `set.insert(x)` used as a test is true iff x was NOT in the set: `if !seen.insert(x) { continue }` is the
+        # `if seen.contains(x) { continue } seen.insert(x)` pair in one call
+        return "!" + render(cond["recv"], env) + ".contains(" + render(cond["args"][0], env) + ")"
     return render(cond, env)
 
 
